@@ -125,6 +125,25 @@ func (g *submitGen) ca(id string, parent *submitCert, ctEKU, poison bool, notAft
 	return g.finish(id, der, k, ctEKU)
 }
 
+// caCross makes a second certificate for the CA `like` (same subject, same key), issued by another parent: a
+// cross-signed intermediate. Everything `like` issued also chains through it.
+func (g *submitGen) caCross(id string, like, parent *submitCert, notAfter time.Time) *submitCert {
+	t := &x509.Certificate{
+		SerialNumber:          g.nextSerial(),
+		Subject:               like.cert.Subject,
+		NotBefore:             time.Unix(1600000000, 0).UTC(),
+		NotAfter:              notAfter,
+		IsCA:                  true,
+		BasicConstraintsValid: true,
+		KeyUsage:              x509.KeyUsageCertSign | x509.KeyUsageDigitalSignature,
+	}
+	der, err := x509.CreateCertificate(submitZeroReader{}, t, parent.cert, &like.key.PublicKey, submitDetSigner{parent.key})
+	if err != nil {
+		panic(fmt.Sprintf("submit: CreateCertificate(%s): %v", id, err))
+	}
+	return g.finish(id, der, like.key, false)
+}
+
 type submitLeafSpec struct {
 	NotAfter time.Time
 	EKU      string // server | none | client | any | server+client
